@@ -70,7 +70,9 @@ def _real_body(stats):
                   "marker": os.path.join(tmp, "m"), "grace_s": 15, "fault": {"where": "none"}})
         try:
             out = realcluster.run_plan(p, 60)
-            if out["verdict"] == "hang":  # confirm before believing a time-out (as C05 does)
+            if out["verdict"] in ("hang", "raised"):
+                # confirm before believing a time-out (as C05 does) -- or a run that raised: on a starved machine the library's own
+                # transport time-outs (20 retries x 0.8 s without an ack, heartbeats) expire without any fault of its logic
                 n[0] += 1
                 p2 = dict(p)
                 # the confirming run uses a port block far from the first one: a foreign process listening on one of the first
